@@ -36,6 +36,7 @@ struct MacroArg {
   char *name;
   bool is_va_args;
   Token *tok;
+  Token *expanded;
 };
 
 typedef Token *macro_handler_fn(Token *);
@@ -621,7 +622,11 @@ static Token *subst(Token *tok, MacroArg *args) {
     // Handle a macro token. Macro arguments are completely macro-expanded
     // before they are substituted into a macro body.
     if (arg) {
-      Token *t = preprocess2(arg->tok);
+      // An argument is macro-expanded only once, and on a copy: preprocess2
+      // relinks the tokens it is given, and # and ## need them as written.
+      if (!arg->expanded)
+        arg->expanded = preprocess2(append(arg->tok, new_eof(arg->tok)));
+      Token *t = arg->expanded;
       t->at_bol = tok->at_bol;
       t->has_space = tok->has_space;
       for (; t->kind != TK_EOF; t = t->next)
